@@ -84,7 +84,16 @@ pub fn err_kind(e: &str) -> String {
 
 pub const BUDGET: u64 = 60_000;
 
-pub fn quiet_panics() { std::panic::set_hook(Box::new(|_| {})); }
+thread_local! { static LAST_PANIC_LOC: std::cell::RefCell<String> = const { std::cell::RefCell::new(String::new()) }; }
+
+/// silence panic output, but remember where the panic was raised (`file:line`)
+pub fn quiet_panics() {
+    std::panic::set_hook(Box::new(|info| {
+        let loc = info.location().map(|l| format!("{}:{}", l.file(), l.line())).unwrap_or_else(|| "?".into());
+        LAST_PANIC_LOC.with(|c| *c.borrow_mut() = loc);
+    }));
+}
+pub fn last_panic_loc() -> String { LAST_PANIC_LOC.with(|c| c.borrow().clone()) }
 
 pub fn guarded<T, F: FnOnce() -> Result<T, asca::Error>>(f: F) -> Out<T> {
     asca::verif::set_budget(BUDGET);
@@ -95,9 +104,9 @@ pub fn guarded<T, F: FnOnce() -> Result<T, asca::Error>>(f: F) -> Out<T> {
         Ok(Err(e)) => Out::Err(format!("{e:?}")),
         Err(p) => {
             if let Some(b) = p.downcast_ref::<asca::verif::BudgetExhausted>() { Out::Hang(b.site) }
-            else if let Some(s) = p.downcast_ref::<String>() { Out::Panic(s.clone()) }
-            else if let Some(s) = p.downcast_ref::<&str>() { Out::Panic(s.to_string()) }
-            else { Out::Panic("?".into()) }
+            else if let Some(s) = p.downcast_ref::<String>() { Out::Panic(format!("{} @ {}", s, last_panic_loc())) }
+            else if let Some(s) = p.downcast_ref::<&str>() { Out::Panic(format!("{} @ {}", s, last_panic_loc())) }
+            else { Out::Panic(format!("? @ {}", last_panic_loc())) }
         }
     }
 }
